@@ -52,7 +52,35 @@ inline void event(const char* name, const char* fmt = nullptr, ...)
     std::fputs("}\n", f);
     std::fflush(f);
 }
+/* Access recording for the OpenMP regions: a harness installs a recorder; every hooked element access,
+ * raw-pointer range and work-sharing loop iteration is reported to it. All calls are made by the executing thread. */
+struct AccessRecorder {
+    virtual ~AccessRecorder()                                          = default;
+    virtual void touch(const void* addr, int size, bool mut)           = 0; /* element accessor (mut: non-const reference) */
+    virtual void range(const void* addr, long bytes, bool write)       = 0; /* raw pointer range handed to a kernel */
+    virtual void iter(const char* file, int line, long iteration)      = 0; /* start of an iteration of a work-sharing loop */
+};
+inline AccessRecorder*& recorder()
+{
+    static AccessRecorder* r = nullptr;
+    return r;
+}
 } // namespace gmgpolar_verif
+#define VERIF_TOUCH(addr, mut)                                                                                         \
+    do {                                                                                                               \
+        if (gmgpolar_verif::recorder())                                                                                \
+            gmgpolar_verif::recorder()->touch((addr), (int)sizeof(*(addr)), (mut));                                    \
+    } while (0)
+#define VERIF_RANGE(addr, count, write)                                                                                \
+    do {                                                                                                               \
+        if (gmgpolar_verif::recorder() && (addr) != nullptr)                                                           \
+            gmgpolar_verif::recorder()->range((addr), (long)(count) * (long)sizeof(*(addr)), (write));                 \
+    } while (0)
+#define VERIF_ITER(i)                                                                                                  \
+    do {                                                                                                               \
+        if (gmgpolar_verif::recorder())                                                                                \
+            gmgpolar_verif::recorder()->iter(__FILE__, __LINE__, (long)(i));                                           \
+    } while (0)
 #define VERIF_EV(...)                                                                                                  \
     do {                                                                                                               \
         if (gmgpolar_verif::sink())                                                                                    \
@@ -61,6 +89,15 @@ inline void event(const char* name, const char* fmt = nullptr, ...)
 #define VERIF_DBL(x) gmgpolar_verif::dbl(x).c_str()
 #else
 #define VERIF_EV(...)                                                                                                  \
+    do {                                                                                                               \
+    } while (0)
+#define VERIF_TOUCH(addr, mut)                                                                                         \
+    do {                                                                                                               \
+    } while (0)
+#define VERIF_RANGE(addr, count, write)                                                                                \
+    do {                                                                                                               \
+    } while (0)
+#define VERIF_ITER(i)                                                                                                  \
     do {                                                                                                               \
     } while (0)
 #endif
